@@ -22,6 +22,7 @@ class Blob:
 
 class C31(Check):
     PROPERTY = "C31"
+    USES_TEMPLATE_DB = True
     RULE = (
         "seeded histories of <= 14 operations: record a generated value under a generated backend "
         "configuration (no value store / value store with min size 0, 200 or 10^6 / max_value_size "
@@ -107,6 +108,7 @@ class C31(Check):
         offloaded: set = set()
         lost: set = set()
         torn: set = set()
+        torn_size: dict = {}
         ops = []
         store_used = cfg["store"] is not None
         nops = 2 + ch.choice(13, "nops")
@@ -140,6 +142,10 @@ class C31(Check):
                         out.probe("rerecorded_after_loss")
                         if self.store_has(h):
                             lost.discard(h)
+                    if h in torn and os.path.getsize(self.store_path(h)) == torn_size[h]:
+                        # recording again rewrote the damaged object: held to full read-back again
+                        out.probe("rerecorded_after_tear_repaired")
+                        torn.discard(h)
                     model[h] = v
                     # offloaded = the row keeps no bytes (the object in the store is the only copy)
                     if self.store_has(h) and self.row_is_empty(backend, h):
@@ -173,6 +179,7 @@ class C31(Check):
                     with open(p, "r+b") as f:
                         f.truncate(size // 2)
                     torn.add(h)
+                    torn_size[h] = size
                     out.fault("torn_offloaded_object")
                     op = ("tear-object", h[:8])
                 else:
